@@ -10,7 +10,9 @@ ASSUMPTIONS = ["lstat values recorded by the driver are the entry's real attribu
 
 
 def generators(tier, seed):
-    return [dict(module="MC_C02", workers=2)]
+    # the fixed world W2x with the hand-picked literals, then pseudo-random trees (WorldRnd) with literals drawn from each tree's own
+    # attribute values and their neighbours (quick: 2 trees, thorough: 24)
+    return [dict(module="MC_C02", workers=2), dict(module="MC_C02r", cfg="MC_C02r_q" if tier == "quick" else "MC_C02r_t", workers=4)]
 
 MANIFEST = dict(
     design_ref='DESIGN.md §5 C02',
